@@ -108,8 +108,8 @@ class Module:
             return
         new_names = {self.functions[q].name for q in new}
         for q, fi in list(self.functions.items()):
-            if fi.parent_func is not None or q in new:
-                continue
+            if fi.parent_func is not None:
+                continue  # (new helpers are read in place inside other new helpers too; a helper is never inlined into itself)
             if not any(isinstance(c, ast.Call) and ((isinstance(c.func, ast.Name) and c.func.id in new_names) or (isinstance(c.func, ast.Attribute) and c.func.attr in new_names)) for c in ast.walk(fi.node)):
                 continue
             view, inl = inline_helpers(fi, lambda h, c, st: h.qualname in new)
